@@ -7,6 +7,7 @@ use rand::Rng;
 use serde_json::{json, Value};
 
 use response_time_analysis::demand::RequestBound;
+use response_time_analysis::time::{Duration, Offset, Service};
 
 use crate::describe::*;
 use crate::Ctx;
@@ -44,6 +45,7 @@ fn pow2ish(ctx: &mut Ctx, lo: u32, hi: u32) -> u64 {
 pub fn run(ctx: &mut Ctx) {
     let n = if ctx.thorough { 400 } else { 60 };
     let only = ctx.arg("--only").unwrap_or("all".into());
+    near_top(ctx, &only);
     for i in 0..n {
         // ---- reservations: period either tiny (astronomically many periods) or itself beyond 32 bits
         let p = if i % 3 == 0 { ctx.rng.gen_range(1..=20u64) } else { pow2ish(ctx, 33, 57) };
@@ -112,6 +114,56 @@ pub fn run(ctx: &mut Ctx) {
     }
 }
 
+/// Periods of 2^61..2^63 and windows up to u64::MAX, chosen so that neither the result nor any intermediate term of
+/// the library's arithmetic leaves the u64 range (checked here in u128): the library has to be exact there too.
+fn near_top(ctx: &mut Ctx, only: &str) {
+    let max = u64::MAX as u128;
+    if only != "supply" {
+        for t in [(1u64 << 61) + 1, 1 << 62, (1 << 62) + 5, (1 << 63) - 3] {
+            for j in [0u64, 5] {
+                let a = if j == 0 { json!({"k": "periodic", "T": t}) } else { json!({"k": "sporadic", "T": t, "J": j}) };
+                let mmax = ((max - 8) / t as u128) as u64;
+                let mut xs: Vec<u64> = vec![0, 1, t - 1, t, t + 1];
+                for m in 1..=mmax {
+                    for r in [0u64, 1, 2] {
+                        let x = m as u128 * t as u128 + r as u128;
+                        // the step of the m-th further job lies at m*T + 1 - J
+                        for y in [x, x.saturating_sub(j as u128)] {
+                            if y >= 1 && y + j as u128 <= max {
+                                xs.push(y as u64);
+                            }
+                        }
+                    }
+                }
+                xs.sort();
+                xs.dedup();
+                let nsteps = (mmax + 1).min(4);
+                ctx.call("big_eta", json!({"a": a, "T": t, "J": j, "C": 1 + j % 2, "xs": xs, "nsteps": nsteps}), big_eta_call);
+            }
+        }
+    }
+    if only != "eta" {
+        for p in [(1u64 << 61) + 1, 1 << 62] {
+            for q in [1u64, p / 3, p - 1, p] {
+                for dl in [q, p] {
+                    let supply = if dl == p && q % 2 == 1 { json!({"k": "periodic", "Q": q, "P": p}) } else { json!({"k": "constrained", "Q": q, "D": dl, "P": p}) };
+                    let mut xs: Vec<u64> = vec![0, 1, 1 << 63];
+                    for m in [0u64, 1] {
+                        for r in [0, 1, p - q, 2 * (p - q), 2 * (p - q) + 1, p - 1] {
+                            xs.push(m * p + r);
+                        }
+                    }
+                    xs.sort();
+                    xs.dedup();
+                    let ds: Vec<u64> = vec![0, 1, q.saturating_sub(1), q, q + 1];
+                    let with_default = 2 * q >= p && p - q <= 500;
+                    ctx.call("big_supply", json!({"supply": supply, "xs": xs, "ds": ds, "with_default": with_default}), big_supply_call);
+                }
+            }
+        }
+    }
+}
+
 /// Arguments at the very top of the u64 range (C20: totality and profile independence include the overflow checks).
 pub fn run_extreme(ctx: &mut Ctx) {
     let m = u64::MAX;
@@ -135,5 +187,77 @@ pub fn run_extreme(ctx: &mut Ctx) {
             let a = if j == 0 { json!({"k": "periodic", "T": t}) } else { json!({"k": "sporadic", "T": t, "J": j}) };
             ctx.call("big_eta", json!({"a": a, "T": t, "J": j, "C": 1, "xs": [x], "nsteps": 3}), big_eta_call);
         }
+    }
+}
+
+/// The discrete time model of src/time.rs (offsets, durations, service; open / closed interval conventions): every
+/// operator on pairs of small and of large values.  Preconditions of the partial operators are respected
+/// (closed_from_time_zero and Sub need a positive / large enough left operand, distance_to an ordered pair).
+fn time_ops_call(inp: &Value) -> Value {
+    let a = u(&inp["a"]);
+    let b = u(&inp["b"]);
+    let k = u(&inp["k"]);
+    let (da, db) = (Duration::from(a), Duration::from(b));
+    let (sa, sb) = (Service::from(a), Service::from(b));
+    let (oa, ob) = (Offset::from(a), Offset::from(b));
+    let lst: Vec<u64> = us(&inp["list"]);
+    let mut out = json!({
+        "fz": u64::from(Offset::from_time_zero(da)),
+        "sz": u64::from(oa.since_time_zero()),
+        "csz": u64::from(oa.closed_since_time_zero()),
+        "oadd": u64::from(oa + db),
+        "dadd": u64::from(da + db),
+        "dsat": u64::from(da.saturating_sub(db)),
+        "ssat": u64::from(sa.saturating_sub(sb)),
+        "dmul": u64::from(da * k),
+        "smul": u64::from(sa * k),
+        "sadd": u64::from(sa + sb),
+        "d2s": u64::from(Service::from(da)),
+        "s2d": u64::from(Duration::from(sa)),
+        "dsum": u64::from(lst.iter().map(|x| Duration::from(*x)).sum::<Duration>()),
+        "ssum": u64::from(lst.iter().map(|x| Service::from(*x)).sum::<Service>()),
+        "nz": da.is_non_zero(), "z": da.is_zero(), "snone": sa.is_none(),
+        "lt": da < db, "olt": oa < ob,
+    });
+    if a >= 1 {
+        out["cfz"] = json!(u64::from(Offset::closed_from_time_zero(da)));
+    }
+    if a <= b {
+        out["dist"] = json!(u64::from(oa.distance_to(ob)));
+    }
+    if a >= b {
+        out["dsub"] = json!(u64::from(da - db));
+        out["ssub"] = json!(u64::from(sa - sb));
+    }
+    if b >= 1 {
+        out["ddiv"] = json!(da / db);
+        out["drem"] = json!(u64::from(da % db));
+    }
+    out
+}
+
+pub fn run_time(ctx: &mut Ctx) {
+    let mut pairs: Vec<(u64, u64)> = vec![];
+    for a in 0..=5u64 {
+        for b in 0..=5u64 {
+            pairs.push((a, b));
+        }
+    }
+    let n = if ctx.thorough { 200 } else { 40 };
+    for _ in 0..n {
+        let a = pow2ish(ctx, 31, 58);
+        let b = match ctx.rng.gen_range(0..4) {
+            0 => a,
+            1 => pow2ish(ctx, 31, 58),
+            2 => ctx.rng.gen_range(0..=9),
+            _ => a.saturating_sub(ctx.rng.gen_range(0..=3)),
+        };
+        pairs.push((a, b));
+        pairs.push((b, a));
+    }
+    for (a, b) in pairs {
+        let k = if a < (1 << 20) { ctx.rng.gen_range(0..=1000u64) } else { ctx.rng.gen_range(0..=15u64) };
+        let list: Vec<u64> = vec![a, b, a / 2, 1, 0];
+        ctx.call("time_ops", json!({"a": a, "b": b, "k": k, "list": list}), time_ops_call);
     }
 }
